@@ -212,8 +212,9 @@ func init() {
 			}
 			u := f[5]
 			switch {
-			case strings.HasPrefix(u, "U=0:H") && len(unhx(u[5:])) >= 12:
-				// the DoH server answers with exactly these bytes (they carry the query's ID)
+			case strings.HasPrefix(u, "U=0:H") && len(unhx(u[5:])) >= 12 && len(f[6]) >= 4 && u[5:9] == f[6][:4]:
+				// the DoH server answers with exactly these bytes; they carry the query's ID, as the
+				// answer of a DoH server does (a mutated query whose ID no longer matches gets the 500)
 			default:
 				u = "U=1:N0"
 				c.Stat("up:http-500")
